@@ -25,13 +25,18 @@ type procSpec struct {
 	stmts          map[string]string // Go statement text -> Lean statement (verbatim)
 	errs           map[string]string // Go error expression text -> Lean Err constructor
 	locals         []string          // Go variables bound by a verbatim statement of `stmts`
+	loopElem       string            // element type of a first-match loop (translated as a structural recursion over the list)
+	retCalls       map[string]string // Go call text in `return call(...)` (the callee returns value and error) -> Lean term
 	result         string            // value of `return nil` (error-only functions) and of falling off the end
 	pure           bool              // no error result: `return x` is `return x`
 }
 
 type procTr struct {
-	sp   *procSpec
-	decl map[string]bool
+	sp       *procSpec
+	decl     map[string]bool
+	aux      []string // auxiliary definitions (loops) emitted before the function
+	loopCall string   // inside a first-match loop: the recursive call on the rest of the list
+	nloops   int
 }
 
 var fieldNames = map[string]string{"AllowedConns": "allowed", "DeniedConns": "denied", "PassConns": "pass"}
@@ -337,11 +342,55 @@ func (t *procTr) block(list []ast.Stmt, ind string) ([]string, error) {
 			}
 			if rs == nil {
 				ls, err := t.foldLoop(x, v, ind)
-				if err != nil {
+				if err == nil {
+					out = append(out, ls...)
+					continue
+				}
+				if t.sp.loopElem == "" || t.loopCall != "" {
 					return nil, err
 				}
-				out = append(out, ls...)
-				continue
+				// first-match loop: the body returns a value or goes on with the next element; the statements after the loop are
+				// what happens when the list is exhausted. Emitted as a structural recursion over the list.
+				lst, err2 := t.expr(x.X)
+				if err2 != nil {
+					return nil, err2
+				}
+				t.nloops++
+				name := fmt.Sprintf("%s_loop%d", t.sp.lean, t.nloops)
+				colon := strings.LastIndex(t.sp.sig, ") :")
+				binders, rty := t.sp.sig[:colon+1], strings.TrimSpace(t.sp.sig[colon+3:])
+				var args []string
+				for _, b := range strings.Split(binders, ")") {
+					b = strings.TrimSpace(strings.TrimPrefix(strings.TrimSpace(b), "("))
+					if i := strings.Index(b, ":"); i > 0 {
+						args = append(args, strings.Fields(b[:i])...)
+					}
+				}
+				rest, err2 := t.body(list[i+1:], "    ")
+				if err2 != nil {
+					return nil, err2
+				}
+				if n := len(list[i+1:]); n == 0 {
+					return nil, fmt.Errorf("first-match loop without a result after it")
+				}
+				vs := leanIdent(v.Name) + "_rest"
+				t.loopCall = "return (← " + name + " " + strings.Join(args, " ") + " " + vs + ")"
+				t.decl[v.Name] = true
+				body, err2 := t.body(x.Body.List, "    ")
+				delete(t.decl, v.Name)
+				call := t.loopCall
+				t.loopCall = ""
+				if err2 != nil {
+					return nil, err2
+				}
+				a := []string{"def " + name + " " + binders + " : List " + t.sp.loopElem + " → " + rty, "  | [] => do"}
+				a = append(a, rest...)
+				a = append(a, "  | "+leanIdent(v.Name)+" :: "+vs+" => do")
+				a = append(a, body...)
+				a = append(a, "    "+call)
+				t.aux = append(t.aux, strings.Join(a, "\n")+"\n")
+				out = append(out, ind+"return (← "+name+" "+strings.Join(args, " ")+" "+lst+")")
+				return out, nil
 			}
 			lst, err := t.expr(x.X)
 			if err != nil {
@@ -364,6 +413,11 @@ func (t *procTr) block(list []ast.Stmt, ind string) ([]string, error) {
 				return nil, err
 			}
 			out = append(out, ind+s)
+		case *ast.BranchStmt:
+			if x.Tok != token.CONTINUE || t.loopCall == "" || x.Label != nil {
+				return nil, fmt.Errorf("untranslatable branch statement %q", norm(text(st)))
+			}
+			out = append(out, ind+t.loopCall)
 		default:
 			return nil, fmt.Errorf("untranslatable statement %q", norm(text(st)))
 		}
@@ -459,11 +513,6 @@ func (t *procTr) foldLoop(x *ast.RangeStmt, v *ast.Ident, ind string) ([]string,
 }
 
 func (t *procTr) body(list []ast.Stmt, ind string) ([]string, error) {
-	for _, st := range list {
-		if _, ok := st.(*ast.BranchStmt); ok {
-			return nil, fmt.Errorf("untranslatable branch statement %q", norm(text(st)))
-		}
-	}
 	out, err := t.block(list, ind)
 	if err != nil {
 		return nil, err
@@ -510,6 +559,11 @@ func (t *procTr) ifStmt(x *ast.IfStmt, ind string) ([]string, error) {
 
 func (t *procTr) ret(r *ast.ReturnStmt) (string, error) {
 	n := len(r.Results)
+	if n == 1 {
+		if c, ok := t.sp.retCalls[norm(text(r.Results[0]))]; ok {
+			return "return (← " + c + ")", nil
+		}
+	}
 	if t.sp.pure {
 		if n != 1 {
 			return "", fmt.Errorf("untranslatable return %q", norm(text(r)))
@@ -646,6 +700,22 @@ func genProcs(repo, out string) {
 		{file: "pkg/netpol/eval/check_eval.go", fn: "isAllowedByANPCapturedRes", lean: "isAllowedByANPCapturedRes",
 			sig:   "(anpRes : RuleRes) : Except Err (Bool × Bool)",
 			atoms: map[string]string{"k8s.Pass": "RuleRes.pass", "k8s.Allow": "RuleRes.allow", "k8s.Deny": "RuleRes.deny"}, errs: badAction},
+		{file: "pkg/netpol/eval/check_eval.go", fn: "PolicyEngine.allowedXgressConnectionByAdminNetpols", lean: "allowedXgressConnectionByAdminNetpols",
+			sig:   "(src dst : KPeer) (isIngress : Bool) (protocol port : String) (anps : List ANP) : Except Err (Bool × Bool)", loopElem: "ANP",
+			atoms: map[string]string{"pe.sortedAdminNetpols": "anps", "k8s.NotCaptured": "RuleRes.notCaptured"},
+			calls: map[string]string{"anp.Selects(dst, true)": "(Except.ok (anp.selects dst true) : Except Err Bool)", "anp.Selects(src, false)": "(Except.ok (anp.selects src false) : Except Err Bool)",
+				"anp.CheckIngressConnAllowed(src, dst, protocol, port)": "(EState.adminCheck anp.ingress src dst protocol port false)",
+				"anp.CheckEgressConnAllowed(dst, protocol, port)":       "(EState.adminCheck anp.egress dst dst protocol port false)"},
+			retCalls: map[string]string{"isAllowedByANPCapturedRes(res)": "(isAllowedByANPCapturedRes res)"}},
+		{file: "pkg/netpol/eval/check_eval.go", fn: "PolicyEngine.allowedXgressConnectionByNetpols", lean: "allowedXgressConnectionByNetpols",
+			sig:   "(polsIngress polsEgress : Except Err (List NetPol)) (src dst : KPeer) (isIngress : Bool) (protocol port : String) : Except Err (Bool × Bool)", loopElem: "NetPol",
+			atoms: map[string]string{"len(netpols)": "netpols.length"}, locals: []string{"netpols"},
+			calls: map[string]string{"policy.IngressAllowedConn(src, protocol, port, dst)": "(EState.npAllowedConn policy policy.ingress src protocol port dst)",
+				"policy.EgressAllowedConn(dst, protocol, port)": "(EState.npAllowedConn policy policy.egress dst protocol port dst)"},
+			stmts: map[string]string{
+				"var netpols []*k8s.NetworkPolicy": "pure ()",
+				"if isIngress { netpols, err = pe.getPoliciesSelectingPod(dst, netv1.PolicyTypeIngress) } else { netpols, err = pe.getPoliciesSelectingPod(src, netv1.PolicyTypeEgress) }": "let netpols ← (if isIngress then polsIngress else polsEgress)",
+				"if err != nil { return false, false, err }": "pure ()"}},
 		{file: "pkg/netpol/eval/check_eval.go", fn: "PolicyEngine.allowedXgressConnection", lean: "allowedXgressConnection",
 			sig: "(byANPs byNetpols : Except Err (Bool × Bool)) (byDefault : Except Err Bool) : Except Err Bool",
 			calls: map[string]string{
@@ -667,7 +737,7 @@ func genProcs(repo, out string) {
 				"pe.cache.clear()": "pure ()"}},
 	}
 	var L strings.Builder
-	L.WriteString("import Netpol.Model.Engine\n/-! REGENERATED from the Go sources of /repo by /verif/tools/goextract (procs.go) on every run. Do not edit.\n" +
+	L.WriteString("import Netpol.Model.Cache\n/-! REGENERATED from the Go sources of /repo by /verif/tools/goextract (procs.go) on every run. Do not edit.\n" +
 		"Each definition is the statement-by-statement rewriting of one Go function into a `do` block over `Except Err`. -/\nnamespace Netpol.Gen.Procs\nopen Netpol\n\n")
 	broken := []string{}
 	for i := range specs {
@@ -722,6 +792,9 @@ func genProcs(repo, out string) {
 				continue
 			}
 			D.WriteString("  return " + sp.result + "\n")
+		}
+		for _, a := range t.aux {
+			L.WriteString(a + "\n")
 		}
 		L.WriteString(D.String() + "\n")
 	}
